@@ -172,6 +172,22 @@ func storePhase(args []string) int {
 			// let the maintenance loop run N ticks worth of wall time (logical effects are read from the fraction list afterwards)
 			time.Sleep(time.Duration(step.N) * time.Millisecond)
 			emit(phaseEvent{Ev: "fracs", Fracs: fracNames(st)})
+		case "pace":
+			// pacing only (not a verdict): keeps the ingest rate per maintenance tick in the regime the retention limit is configured for
+			time.Sleep(time.Duration(step.N) * time.Millisecond)
+		case "settle":
+			// bounded polling on a logical condition: the fraction list stopped changing (start-up maintenance pass and its deletions are over)
+			prev, same := "", 0
+			for i := 0; i < 600 && same < 6; i++ {
+				cur := strings.Join(fracNames(st), ",")
+				if cur == prev {
+					same++
+				} else {
+					prev, same = cur, 0
+				}
+				time.Sleep(4 * time.Millisecond)
+			}
+			emit(phaseEvent{Ev: "fracs", Fracs: fracNames(st)})
 		case "fracs":
 			emit(phaseEvent{Ev: "fracs", Fracs: fracNames(st)})
 		case "stop":
